@@ -93,6 +93,15 @@ theorem takeMsg_total (outf : List (Outcome Bool)) (h : ∀ o ∈ outf, OnlyExc 
   simp only [tk.takeFw, ↓reduceIte]
   exact firewall_total _ none (outFilterLoop_onlyExc tk outf h) (by intro o ho; cases ho)
 
+/-- **No ISUPPORT advertisement can deafen the bot**: whatever 005 tokens the server sent — with
+values, without (`CHANTYPES`, `CHANNELLEN` stored as `None`), repeated, contradicting, with values
+`int()` rejects — the channel test `_tagMsg` performs on *every* incoming message returns
+(since fix 8cfa9e2; before it a valueless `CHANTYPES` made it raise `TypeError` for every later
+message, so that nothing, not even PING, was processed). -/
+theorem isupport_never_deafens (intOf : Str → Option Int) (tokens : List Str) (s : Str) :
+    ∃ b, ircIsChannel (do005 intOf [] tokens) s = .ok b :=
+  ircIsChannel_total _ (supTyped_do005 intOf tokens [] supTyped_nil) s
+
 /-! ## the driver loop (C11's model of `SocketDriver`, instantiated with a firewalled Irc) -/
 
 /-- nothing escapes `irc.feedMsg`, `irc.takeMsg`, the encoding or `parseMsg` into the driver -/
